@@ -904,14 +904,16 @@ def geom_cases(ctx) -> list:
 
 def dataset_recipe(rng, conv: str, tier: str, for_clip: bool) -> dict:
     kw = {}
+    # Clipping meshes with optional connectivity / grids whose coordinates are plain variables is the business
+    # of C08 / C09; most clip runs stay on the plain encodings so that this check is about "CLI = library",
+    # the rest goes through the same comparison (error against error where the library refuses).
+    plain = for_clip and rng.random() < 0.7
     if conv == 'ugrid':
         kw = {'fill': rng.choice(['nan', 'none'])}
-        if for_clip:
-            # clipping meshes with optional connectivity / CF grids with plain-variable coordinates fails inside
-            # the library for reasons belonging to C08 / C09; keep this check about "CLI = library"
+        if plain:
             kw.update(tables=[], edge_dim_declared=False)
     else:
-        kw = {'coords_as': 'coords'} if for_clip else {}
+        kw = {'coords_as': 'coords'} if plain else {}
         if conv != 'cf1d':
             kw['min_n'] = 2          # one-row curvilinear grids without stored bounds have no valid cell
     for _ in range(50):
@@ -922,10 +924,6 @@ def dataset_recipe(rng, conv: str, tier: str, for_clip: bool) -> dict:
         r = G.attach_vars(rng, r0, n_vars=rng.choice([2, 3]), max_extra=2)
         if any(v.get('kind') == 'face' for v in r['vars']):     # something to extract / clip on the cells
             break
-    if conv == 'shoc_simple':
-        # ShocSimple.topology looks at the standard_name of every (j, i) variable and raises if one has none
-        for v in r['vars']:
-            v['attrs'] = {'standard_name': v['name']}
     return {'ds': r, 'timecoord': rng.random() < 0.6}
 
 
@@ -999,6 +997,19 @@ def command_cases(ctx) -> list:
                               'expect_format': 'wkt'})
                 cases.append({'k': 'cmd', 'cmd': 'export-geometry', 'recipe': rec, 'out': 'out.wkt', 'format': 'auto',
                               'expect_format': 'wkt'})
+    # ---- a SHOC-simple file whose `time` is a bare dimension (no time variable) ---------------------
+    rec = dataset_recipe(rng, 'shoc_simple', 'quick', for_clip=True)
+    rec['timecoord'] = False
+    for v in rec['ds']['vars']:
+        if v.get('kind') == 'face':
+            v['extra'] = sorted(set(v.get('extra', [])) | {'time'})
+            v.pop('order', None)
+    b = G.build(rec['ds'])
+    vals = clip_geometry_for(b, rng)
+    cases.append({'k': 'cmd', 'cmd': 'clip', 'recipe': rec, 'bounds': vals, 'geom_how': 'json',
+                  'bounds_text': ','.join(fmt_number(rng, v) for v in vals)})
+    cases.append({'k': 'cmd', 'cmd': 'extract-points', 'recipe': rec, 'columns': ['lon', 'lat'], 'policy': 'drop',
+                  'table': points_table(rng, b, 2, 1, ['lon', 'lat'])})
     # ---- failure scenarios (one small dataset each) ------------------------------------------
     rec = dataset_recipe(rng, 'cf1d', 'quick', for_clip=True)
     b = G.build(rec['ds'])
@@ -1083,7 +1094,7 @@ def run(ctx) -> None:
 
 class Flagging:
     """ctx proxy that counts what the direct oracle reports (known findings included)"""
-    PER_SIGNATURE = 5        # keep room for every distinct kind of failure in the replay file
+    PER_SIGNATURE = 5000        # keep room for every distinct kind of failure in the replay file
 
     def __init__(self, ctx):
         self.ctx, self.flags, self.by_sig = ctx, 0, {}
